@@ -342,7 +342,7 @@ static void RunReceiverUnsegmented(const Kind & k, const std::string & stream, C
 static void PrepareScenarioInChild(Scenario & sc)
 {
    SetConsoleLogLevel(MUSCLE_LOG_NONE);
-   const std::string kk = KindKey(sc.kind);
+   std::string kk = KindKey(sc.kind);
    std::string err, senderCache; std::vector<uint32> wo;
    if (sc.extraRx.empty()) {
       if (!RunSenderUnsegmented(sc.kind, sc.out, sc.ref, wo, &sc.sentFlats, err, &senderCache)) { sc.failKey = kk + ":fault-free:sender-fails"; sc.failMsg = err; return; }
@@ -362,7 +362,7 @@ static void PrepareScenarioInChild(Scenario & sc)
    Spec sp; sp.kind = sc.RxKind(); sp.inStream = sc.ref; sp.inFlats = sc.sentFlats; sp.inBoundaries = sc.boundaries;
    Collector col; AbstractMessageIOGatewayRef gw; ScriptIO io;
    RunReceiverUnsegmented(sc.RxKind(), sc.ref, col, gw, io, err);
-   if (sc.hasRx) { const_cast<std::string &>(kk) = KindKey(sc.kind) + "-to-" + KindKey(sc.rx); }
+   if (sc.hasRx) kk = KindKey(sc.kind) + "-to-" + KindKey(sc.rx);
    if (!err.empty()) { sc.failKey = kk + ":fault-free:receiver-fails"; sc.failMsg = err; }
    else { const std::string d = CheckDelivered(sp, col, gw(), (uint32)sc.ref.size()); if (!d.empty()) { sc.failKey = kk + ":fault-free:not-delivered-as-sent"; sc.failMsg = d; } }
    if (sc.failKey.empty() && sc.kind.id == K_TPL) {   // the two ends must keep their caches in step
@@ -623,7 +623,7 @@ static seqx::Stats RunSeqxPart(const std::string & part, EndpointModel & m, cons
    verif::Part & p = res.parts.back();
    const bool closed = S.exhaustive && S.statesPerDepth.size() >= 2 && S.statesPerDepth.back() == 0;
    uint32 minB = 0xFFFFFFFFu, maxB = 0, nSparse = 0; for (size_t i = 0; i < m.specs.size(); i++) for (int d = 0; d < 2; d++) if (m.specs[i].B(d)) { minB = std::min(minB, m.specs[i].B(d)); maxB = std::max(maxB, m.specs[i].B(d)); if (m.specs[i].sparse[d]) nSparse++; }
-   p.rule = what + verif::Fmt(" %u endpoint configurations (start states), streams of %u..%u bytes. One operation = one real DoOutput()/DoInput() call on a fresh replay of the history, with the scripted transport answering: a window up to EVERY later stream offset (streams <=%u bytes; for the %u longer streams the offsets within +-3..17 bytes of every Message/frame boundary and of the 2048-byte buffer edge), would-block, first call short then would-block / then unrestricted, at most 1/2/3/7 bytes per call, maxBytes 1 and 7; plus a drain operation (fault-free completion from the reached state). States deduplicated on (configuration, bytes emitted, bytes consumed, the gateway's private transfer state read via -fno-access-control, delivered count+digest); explored breadth-first until no new state appears%s. After every call: emitted bytes are a prefix of the reference stream, delivered units equal exactly those complete in the consumed prefix, return value = bytes moved <= maxBytes, no error state, HasBytesToOutput() true while bytes remain.",
+   p.rule = what + verif::Fmt(" %u endpoint configurations (start states), streams of %u..%u bytes. One operation = one real DoOutput()/DoInput() call on a fresh replay of the history, with the scripted transport answering: a window up to EVERY later stream offset (streams <=%u bytes; for the %u longer streams the offsets within +-3..17 bytes of every Message/frame boundary and of the 2048-byte buffer edge), would-block, first call short then would-block / then unrestricted, at most 1/2/3/7 bytes per call, maxBytes 1 and 7 (for the longer streams these non-window patterns start only at a selected offset); plus a drain operation (fault-free completion from the reached state). States deduplicated on (configuration, bytes emitted, bytes consumed, the gateway's private transfer state read via -fno-access-control, delivered count+digest); explored breadth-first until no new state appears%s. After every call: emitted bytes are a prefix of the reference stream, delivered units equal exactly those complete in the consumed prefix, return value = bytes moved <= maxBytes, no error state, HasBytesToOutput() true while bytes remain.",
                                (unsigned)m.specs.size(), minB == 0xFFFFFFFFu ? 0 : minB, maxB, FULL_MODE_MAX_B, nSparse, closed ? " (graph closed: every segmentation expressible by these calls is covered)" : "");
    p.extra["graph_closed"] = closed ? "true" : "false";
    if (!closed && p.exhaustive) { p.exhaustive = false; p.cap = "depth cap 40 reached before the graph closed"; }
@@ -977,7 +977,7 @@ int main(int argc, char ** argv)
       { "seqx-slip", &P.mSlip, "SLIPFramedDataMessageIOGateway, sender alone and receiver alone (incl. a hand-made stream of stray escapes):", 0.03 },
       { "seqx-duplex", &P.mDup, "one MessageIOGateway[zlib6] that sends and receives at once (input and output calls interleaved in every order):", 0.08 },
       { "seqx-c-gateways", &P.mC, "the C gateways MMessageGateway (minimessage) and UMessageGateway (micromessage) behind a calling-convention adapter, as senders and as receivers, fed by / feeding the C++ MessageIOGateway and themselves:", 0.05 },
-      { "seqx-websocket", &P.mWs, "WebSocketMessageIOGateway client endpoint and server endpoint, handshake included, each with BOTH its directions scripted (input can enqueue output):", 0.15 },
+      { "seqx-websocket", &P.mWs, "WebSocketMessageIOGateway client endpoint and server endpoint, handshake included, each with BOTH its directions scripted (input can enqueue output); window targets = offsets around the handshake end and every frame boundary; the two directions form a full product while either is inside its handshake text, afterwards one direction moves only while the other rests at 0 / handshake end / stream end; the server endpoint reads an RFC 6455 conforming client stream built by the harness from the real client's handshake text, key octets and slave-gateway payloads:", 0.15 },
    };
    const size_t nsp = sizeof(sp) / sizeof(sp[0]);
 
@@ -1035,6 +1035,9 @@ int main(int argc, char ** argv)
    if (args.WantPart("hf-cuts-websocket") && P.cutsWs.total) { verif::Part & p = RunFamily("hf-cuts-websocket" + sfx, P.cutsWs, P.cutsWs.total, args, res, dl, 120); p.states = p.transitions;
       p.rule = verif::Fmt("WebSocket client <-> server pair (handshake + frames in both directions where the fault-free exchange works), %u scenarios: every schedule with <=%d cut points on each of the four I/O sides (client-write, server-read, server-write, client-read), one would-block at EVERY offset of each side, every uniform chunk size on all sides; both emitted streams = reference, delivered = sent, no gateway error", (unsigned)P.cutsWs.ps.size(), P.T ? 2 : 1); }
 
+   res.observations.push_back("out of the compared domain: zero-length raw chunks (Message::AddData refuses them; a zero-length item added through AddFlat(ByteBufferRef) is answered B_TYPE_MISMATCH by Message::FindData, so the raw, SLIP and WebSocket senders drop it together with every later chunk of the same Message), text lines containing CR or LF, PlainTextMessageIOGateway::SetFlushPartialIncomingLines(true) (line grouping then depends on the segmentation by design), packet-mode (UDP style) operation of the stream gateways");
+   res.observations.push_back("not compared: WebSocketMessageIOGateway::DoInput does not count handshake bytes in its return value and ignores maxBytes while the handshake is in progress");
+   res.observations.push_back("RawDataMessageIOGateway::DoOutputImplementation and PlainTextMessageIOGateway::DoOutputImplementationAux recurse once per accepted partial write inside one DoOutput() call (the text gateway stops at depth 1024, the raw gateway has no limit); streams here are a few hundred bytes, so stack depth under thousands of consecutive short writes is not exercised");
    for (size_t i = 0; i < P.ws.size(); i++) if (!P.ws[i].c2sOk) { res.observations.push_back("websocket client->server payload is not deliverable in the fault-free exchange (" + P.ws[i].name + "): the server endpoint is explored with an RFC 6455 conforming client stream built by the harness, the pair enumeration carries server->client payload only"); break; }
    fprintf(stderr, "C03: violations=%u wall=%.1fs\n", (unsigned)res.violations.size(), verif::NowS() - args.t0);
    return res.Write(args);
